@@ -136,15 +136,20 @@ def run(ctx, prop):
     res = tlc.run("BitVecMC", "BitVecMC.cfg", tag="bvmc")
     ctx.add_tlc(res, "M:BitVecMC.cfg")
     if quick:
-        tr = generate(ctx, "ExprGenEx1.cfg", "ex1", stride=12, thresholds=(0,))
-        tr += generate(ctx, "ExprGenSim_small.cfg", "simsmall", simulate="num=20", depth=9, thresholds=(0, 4))
-        tr += generate(ctx, "ExprGenMap.cfg", "map", stride=3, thresholds=(0,))
+        tr = generate(ctx, "ExprGenEx1.cfg", "ex1", stride=16, thresholds=(0,))
+        tr += generate(ctx, "ExprGenSim_small.cfg", "simsmall", simulate="num=16", depth=9, thresholds=(0, 4))
+        tr += generate(ctx, "ExprGenMap.cfg", "map", stride=5, thresholds=(0,))
+        tr += generate(ctx, "ExprGenEx2s.cfg", "ex2s", stride=16, thresholds=(0,))
+        tr += generate(ctx, "ExprGenEx3.cfg", "ex3", stride=80, thresholds=(0,))
         validate(ctx, tr, prop, "small")
         tb = generate(ctx, "ExprGenSim_big.cfg", "simbig", simulate="num=8", depth=8, thresholds=(0, 6))
         validate(ctx, tb, prop, "big")
     else:
         tr = generate(ctx, "ExprGenEx1.cfg", "ex1", thresholds=(0, 3))
         validate(ctx, tr, prop, "ex1")
+        tr = generate(ctx, "ExprGenEx2s.cfg", "ex2s", thresholds=(0,))
+        tr += generate(ctx, "ExprGenEx3.cfg", "ex3", stride=4, thresholds=(0,))
+        validate(ctx, tr, prop, "ex2s3")
         tr = generate(ctx, "ExprGenEx2.cfg", "ex2", stride=12, thresholds=(0,))
         validate(ctx, tr, prop, "ex2")
         tr = generate(ctx, "ExprGenMap.cfg", "map", thresholds=(0,))
